@@ -132,4 +132,21 @@ theorem correlogramsFl_eq_Q (times : List ℚ) (sc : List Int) (ids : Option (Li
   rw [h1, h2, h3]
   rfl
 
+theorem correlogramsFl_seconds (times : List ℚ) (sc : List Int) (ids : List Nat) (rate bin window : ℚ)
+    (T : List Int) (B : Int) (g : GridOK times rate bin window T B) (x : FlExact bin window T B)
+    (hsorted : times.Pairwise (· ≤ ·)) (hlen : sc.length = times.length) (hdom : InDom sc ids) (sym : Bool) :
+    correlogramsFl times sc (some ids) rate bin window sym =
+      some (if sym then symmetrize (specSeconds times sc ids bin (halfOf window bin))
+            else specSeconds times sc ids bin (halfOf window bin)) :=
+  (correlogramsFl_eq_Q times sc (some ids) rate bin window T B g x sym).trans
+    (correlogramsQ_eq times sc ids rate bin window T B g hsorted hlen hdom sym)
+
+theorem correlogramsFl_as_run (times : List ℚ) (sc : List Int) (ids : Option (List Nat)) (rate bin window : ℚ)
+    (sym : Bool) :
+    samplesOfFl rate times = (prodsFl rate times).map truncInt ∧
+    correlogramsFl times sc ids rate bin window sym =
+      correlogramsOfInts ((prodsFl rate times).map truncInt) (binsizeOfFl rate bin) (winsizeBinsFl window bin)
+        times sc ids rate sym :=
+  ⟨samplesOfFl_eq_prods rate times, by rw [← samplesOfFl_eq_prods]; rfl⟩
+
 end PhyVerif.C15.Lemmas
